@@ -12,7 +12,8 @@ TRUSTED_BASE = [
     "hand model Model/Parse.lean (allIds, uniques, code, normalize) tied to /repo by this correspondence run (exact ids and lookup order are compared)",
     "pandas factorize / Index.get_indexer / replace(-1, NA) as modelled; driver, harness",
 ]
-ASSUMPTIONS = ["two node elements declaring the same NodeId share one id (in the real code as well); the generator gives every node its own NodeId"]
+ASSUMPTIONS = ["two rows declaring the same NodeId share one id (in the real code as well): for such inputs 'every row has its own id' is unsatisfiable together with "
+               "'each distinct NodeId has one id' and is not demanded; all other clauses are. Document sets give every node its own NodeId; synthetic frames repeat NodeIds in a quarter of the cases"]
 RULE = ("document sets (closed or with dangling end points) where ids occur first or only as DataType / ParentNodeId / MethodDeclarationId / "
         "reference type / target, references before definitions; normalize_wrt_nodeid also run directly on synthetic frames; "
         "distinct = distinct document set or frame pair; non-trivial = >= 2 distinct NodeIds")
@@ -29,6 +30,10 @@ def frame_cases(run, n):
         k = rng.randint(1, 6)
         ids = rng.sample(pool, min(k, len(pool)))
         ids = list(dict.fromkeys(ids))
+        if rng.random() < 0.25:
+            # a NodeId declared by two rows (overlapping exports): the rows share one id — "own unique id" cannot hold then and is
+            # not demanded; every other clause (id <-> NodeId consistency, denormalisation) still must
+            ids.insert(rng.randrange(len(ids) + 1), rng.choice(ids))
         cols = {"NodeId": ids}
         for c in ("ParentNodeId", "DataType", "MethodDeclarationId"):
             if rng.random() < 0.6:
@@ -37,7 +42,7 @@ def frame_cases(run, n):
         m = rng.randint(0, 6)
         refs = pd.DataFrame({c: pd.Series([rng.choice(pool) for _ in range(m)], dtype=object) for c in ("Src", "Trg", "ReferenceType")})
         orig_n, orig_r = nodes.copy(), refs.copy()
-        run.case({"frame": i, "nodes": len(ids), "refs": m}, nontrivial=len(set(pool)) > 1, tag="frame")
+        run.case({"frame": i, "nodes": len(ids), "refs": m}, nontrivial=len(set(pool)) > 1, tag="frame" + (":repeated-nodeid" if len(set(ids)) < len(ids) else ""))
         run.compared += 1
         try:
             lk = normalize_wrt_nodeid(nodes, refs)
